@@ -3,6 +3,7 @@ import RQ.ModelF.Cost
 import Driver.CmdData
 import Driver.CmdSched
 import Driver.CmdExec
+import Driver.CmdAcct
 /-! Command table of the replay driver (model instantiated at `Float`). -/
 namespace Driver
 open RQ.F
@@ -43,6 +44,9 @@ def dispatch (toks : List String) : String :=
   | some r => r
   | none =>
   match cmdExec toks with
+  | some r => r
+  | none =>
+  match cmdAcct toks with
   | some r => r
   | none => "ERR unknown-command"
 
